@@ -678,12 +678,17 @@ func checkTiling(p *Program, fn *ssa.Function) (isSlicer bool, problems []linPro
 		}
 	}
 	if len(slices) == 0 {
-		return false, nil
+		// delegation: the parts are those of another tiling helper applied to the same receiver,
+		// all handed on
+		return tilesByDelegation(p, fn, recv)
 	}
 	isLenNative := func(v ssa.Value) bool {
 		call, ok := v.(*ssa.Call)
 		if !ok {
 			return false
+		}
+		if cal := call.Call.StaticCallee(); cal != nil && len(call.Call.Args) == 1 && isSpillOf(call.Call.Args[0], recv) && returnsLenNative(cal) {
+			return true // it.Len()
 		}
 		bi, ok := call.Call.Value.(*ssa.Builtin)
 		if !ok || bi.Name() != "len" {
@@ -751,6 +756,110 @@ func checkTiling(p *Program, fn *ssa.Function) (isSlicer bool, problems []linPro
 		}
 	}
 	return true, problems
+}
+
+// returnsLenNative: a method of inputTokens whose only statement returns len(it.nativeTokens).
+func returnsLenNative(fn *ssa.Function) bool {
+	if fn.Signature.Recv() == nil || !isInputTokens(fn.Signature.Recv().Type()) || len(fn.Blocks) != 1 {
+		return false
+	}
+	ret, ok := fn.Blocks[0].Instrs[len(fn.Blocks[0].Instrs)-1].(*ssa.Return)
+	if !ok || len(ret.Results) != 1 {
+		return false
+	}
+	call, ok := ret.Results[0].(*ssa.Call)
+	if !ok {
+		return false
+	}
+	bi, ok := call.Call.Value.(*ssa.Builtin)
+	if !ok || bi.Name() != "len" {
+		return false
+	}
+	for _, lf := range []*types.Var{loadedField(call.Call.Args[0])} {
+		if lf != nil && lf.Name() == "nativeTokens" {
+			return true
+		}
+	}
+	if f, ok := call.Call.Args[0].(*ssa.Field); ok {
+		if fv := fieldVarOf(f.X.Type(), f.Field); fv != nil && fv.Name() == "nativeTokens" {
+			return true
+		}
+	}
+	return false
+}
+
+var tilingMemo = map[*ssa.Function]int{} // 1 in progress, 2 slicer without problems, 3 not
+
+// tilesByDelegation: fn (a method of inputTokens without Slice calls of its own) obtains its
+// parts from another verified tiling helper called on its own receiver and hands every part on.
+func tilesByDelegation(p *Program, fn *ssa.Function, recv *ssa.Parameter) (bool, []linProblem) {
+	// pure pass-through only: exactly one call that takes an inputTokens value; anything more
+	// elaborate (a helper composed of several partitions) is left to the linear rule
+	nCalls := 0
+	for _, b := range fn.Blocks {
+		for _, ins := range b.Instrs {
+			if call, ok := ins.(*ssa.Call); ok {
+				for _, a := range call.Call.Args {
+					if isInputTokens(a.Type()) {
+						nCalls++
+						break
+					}
+				}
+			}
+		}
+	}
+	if nCalls != 1 {
+		return false, nil
+	}
+	found := false
+	for _, b := range fn.Blocks {
+		for _, ins := range b.Instrs {
+			call, ok := ins.(*ssa.Call)
+			if !ok {
+				continue
+			}
+			cal := call.Call.StaticCallee()
+			if cal == nil || cal == fn || cal.Signature.Recv() == nil || !isInputTokens(cal.Signature.Recv().Type()) || len(call.Call.Args) == 0 || !isSpillOf(call.Call.Args[0], recv) {
+				continue
+			}
+			switch tilingMemo[cal] {
+			case 0:
+				tilingMemo[cal] = 1
+				ok2, probs := checkTiling(p, cal)
+				if ok2 && len(probs) == 0 {
+					tilingMemo[cal] = 2
+				} else {
+					tilingMemo[cal] = 3
+				}
+			}
+			if tilingMemo[cal] != 2 {
+				continue
+			}
+			// every inputTokens result of the call is used (handed on), none discarded
+			tup, isTup := call.Type().(*types.Tuple)
+			if !isTup {
+				continue
+			}
+			used := map[int]bool{}
+			for _, r := range *call.Referrers() {
+				if ex, ok := r.(*ssa.Extract); ok && len(*ex.Referrers()) > 0 {
+					used[ex.Index] = true
+				}
+			}
+			all := true
+			for i := 0; i < tup.Len(); i++ {
+				if isInputTokens(tup.At(i).Type()) && !used[i] {
+					all = false
+				}
+			}
+			if all {
+				found = true
+			} else {
+				return true, []linProblem{{call.Pos(), FuncName(fn) + ":tiling", "a part returned by " + cal.Name() + " is discarded: its tokens are lost", nil}}
+			}
+		}
+	}
+	return found, nil
 }
 
 // isSpillOf: v is the parameter itself or a load of the local cell it was spilled to.
